@@ -53,7 +53,7 @@ theorem safe_stepInit {s : Server} (hs : Safe s) (c cid : Nat) : Safe (stepInit 
     · exact hs
     · exact safe_set hs hx _ _ s.owner id rfl
 
-theorem good_stepWill {s : Server} (hg : Good s) (c tok : Nat) (imm : Bool) : Good (stepWill s c tok imm).1 := by
+theorem good_stepWill {s : Server} (hg : Good s) (c tok : Nat) (imm sf : Bool) : Good (stepWill s c tok imm sf).1 := by
   unfold stepWill
   cases hx : s.conns[c]? with
   | none => exact hg
@@ -69,7 +69,7 @@ theorem good_stepWill {s : Server} (hg : Good s) (c tok : Nat) (imm : Bool) : Go
         simp only [List.map_append, List.map_cons, List.map_nil]
         rw [hg.willsOpen c x hx ho]
 
-theorem safe_stepWill {s : Server} (hs : Safe s) (c tok : Nat) (imm : Bool) : Safe (stepWill s c tok imm).1 := by
+theorem safe_stepWill {s : Server} (hs : Safe s) (c tok : Nat) (imm sf : Bool) : Safe (stepWill s c tok imm sf).1 := by
   unfold stepWill
   cases hx : s.conns[c]? with
   | none => exact hs
@@ -364,7 +364,7 @@ theorem safe_step {s : Server} (hs : Safe s) (e : Event) : Safe (step s e).1 := 
     cases e with
     | «open» k => have h := safe_open hs k; simp only [hd] at h; exact h
     | init c cid => dsimp only; exact safe_stepInit hs c cid
-    | will c tok imm => dsimp only; exact safe_stepWill hs c tok imm
+    | will c tok imm sf => dsimp only; exact safe_stepWill hs c tok imm sf
     | request c tok => dsimp only; exact safe_stepRequest hs c tok
     | deliver tok => dsimp only; exact safe_settle (safe_route hs tok) _
     | close c k => dsimp only; exact safe_stepClose hs c
@@ -380,7 +380,7 @@ theorem good_step {s : Server} (hg : s.dead = none → Good s) (hs : Safe s) (e 
     cases e with
     | «open» k => have h := good_open g hs k; simp only [hd] at h; exact h
     | init c cid => dsimp only; exact good_stepInit g c cid
-    | will c tok imm => dsimp only; exact good_stepWill g c tok imm
+    | will c tok imm sf => dsimp only; exact good_stepWill g c tok imm sf
     | request c tok => dsimp only; exact good_stepRequest g c tok
     | deliver tok =>
       dsimp only at hn ⊢
@@ -481,7 +481,7 @@ theorem step_alive {s : Server} (hg : Good s) (hd : s.dead = none) (e : Event) :
     cases s.conns[c]? with
     | none => exact hd
     | some x => simp only []; split <;> exact hd
-  | will c tok imm =>
+  | will c tok imm sf =>
     dsimp only; unfold stepWill
     cases s.conns[c]? with
     | none => exact hd
